@@ -21,6 +21,7 @@ KEY_F4 = "F4-validate-offset-uses-end-position"
 KEY_REP = "C17-validate-skips-repcode-offsets"
 KEY_WRAP = "C17-u32-length-or-offset-wrap"
 KEY_GEN = "C17-generateSequences-litLength-65536-history"
+KEY_OVERRUN = "C17-nodelim-overrun-negative-lastliterals"
 KEY_PREFIX = "C17-prefix-dict-invisible-to-validation"
 INVALID = "External_sequences_are_not_valid"
 PRODFAIL = "Block-level_external_sequence_producer_returned_an_error_code"
@@ -747,8 +748,12 @@ def judge_q(env, c, rres, mout):
     wrap = has_wrap(c["seqs"])
     sig_extra = (c.get("origin", ""), ap["delim"], ap["val"], ap["ers"], c["dictmode"] != "-", min(ap["mm"], 5))
     # ---------- memory safety / crash
+    if real[0] == "CRASH" and not ap["val"] and c["expect"] != "valid":
+        # documented: without validation "invalid sequences cause undefined behavior"
+        ctx.count(("crash-without-validation", mod[0]) + sig_extra, nontrivial=False)
+        return
     if real[0] == "CRASH":
-        key = KEY_WRAP if (wrap or mod[0] == "OOB") else None
+        key = KEY_WRAP if wrap else (KEY_OVERRUN if (mod[0] == "OOB" and mod[1] in (7, 8)) else None)
         env.report(case_replay(c, dict(stderr=real[1][1][-1200:], model=str(mod[:2])[:200])), key=key,
                    what="memory-safety: ZSTD_compressSequences crashed / sanitizer report (rc %s, validateSequences=%d, model says %s): %s"
                         % (real[1][0], ap["val"], mod[0], real[1][1][-400:].replace("\n", " ")))
@@ -765,7 +770,7 @@ def judge_q(env, c, rres, mout):
     if mod[0] == "OOB":
         # undefined behaviour predicted: an error return is fine; anything else is reported (validation on) / ignored (validation off)
         if real[0] == "OK" and ap["val"]:
-            env.report(case_replay(c, dict(model=str(mod))), key=KEY_WRAP if wrap else None,
+            env.report(case_replay(c, dict(model=str(mod))), key=KEY_WRAP if wrap else (KEY_OVERRUN if mod[1] in (7, 8) else None),
                        what="model predicts an out-of-bounds copy (site %s) with validateSequences=1 but the call returned success" % (mod[1],))
         ctx.count(("oob", real[0]) + sig_extra)
         return
@@ -1100,7 +1105,7 @@ def run_units(env, rng, n):
         ds = rng.choice([0, 0, 1, 100, 5000, 1 << 20])
         pos = rng.choice([0, 1, 2, 50, W - 1, W, W + 1, W + 2, 2 * W, rng.randrange(4 * W)])
         bound = W if pos > W else pos + ds
-        ob = rng.choice([bound + 3, bound + 4, bound + 2, 1, 2, 3, 4, rng.choice(vals), rng.randrange(1, bound + 10)])
+        ob = rng.choice([bound + 3, bound + 4, bound + 2, bound, bound + 1, 0, 1, 2, 3, 4, rng.choice(vals), rng.randrange(1, bound + 10)])
         ob = min(ob, M32 - 1)
         ml = rng.choice([0, 1, 2, 3, 4, 5, 100, M32 - 1])
         lines.append("U v%d v %d %d %d %d %d %d %d" % (i, wl, mm, pr, ds, ob, ml, pos))
